@@ -45,6 +45,28 @@ type c03Case struct {
 
 var c03Keys = []string{"a", "b", "c", "d", "e", "zz", "", "A", "Batch", "batch"}
 
+// c03Noisy: (fraction, limit) pairs whose product in IEEE double lies within 1e-9 of an integer without being one
+// (0.07 x 100 = 7.000000000000001, 0.29 x 100 = 28.999999999999996, ...). The documented share is the ceiling of
+// that double product: any "tidier" arithmetic (rounding first, exact decimals, integer basis points) disagrees here.
+var c03Noisy = func() (out []struct {
+	F float64
+	L int
+}) {
+	for k := 1; k < 1000; k++ {
+		f := float64(k) / 1000
+		for l := 1; l <= 1000; l++ {
+			p := float64(l) * f
+			if r := math.Round(p); p != r && math.Abs(p-r) < 1e-9 {
+				out = append(out, struct {
+					F float64
+					L int
+				}{f, l})
+			}
+		}
+	}
+	return out
+}()
+
 func genFrac() *rapid.Generator[float64] {
 	return rapid.OneOf(
 		rapid.Map(rapid.IntRange(0, 64), func(k int) float64 { return float64(k) / 64 }),
@@ -93,6 +115,26 @@ func genC03(t *rapid.T) c03Case {
 		}
 	}
 	c.Parts = parts
+	noisyLimits := []int{}
+	if rapid.IntRange(0, 3).Draw(t, "noisy") == 0 && len(c03Noisy) > 0 {
+		// one partition gets a fraction whose product with some limits is an integer plus / minus float noise; those
+		// limits are put in force by the constructor or by SetLimit operations below
+		f := c03Noisy[rapid.IntRange(0, len(c03Noisy)-1).Draw(t, "noisyPair")].F
+		if f <= 0.5 {
+			for i := range c.Parts {
+				c.Parts[i].Frac = 0
+			}
+			c.Parts[0].Frac = f
+			for _, np := range c03Noisy {
+				if np.F == f {
+					noisyLimits = append(noisyLimits, np.L)
+				}
+			}
+			if rapid.Bool().Draw(t, "noisyInitial") {
+				c.Limit = rapid.SampledFrom(noisyLimits).Draw(t, "noisyLimit")
+			}
+		}
+	}
 	addNames := append(append([]string{}, names...), "x0", "x1", "x2")
 	op := rapid.Custom(func(t *rapid.T) c03Op {
 		switch k := rapid.IntRange(0, 19).Draw(t, "k"); {
@@ -101,6 +143,9 @@ func genC03(t *rapid.T) c03Case {
 		case k < 15:
 			return c03Op{K: "rel", Idx: rapid.IntRange(0, 1000).Draw(t, "idx")}
 		case k < 17:
+			if len(noisyLimits) > 0 && rapid.Bool().Draw(t, "setNoisy") {
+				return c03Op{K: "set", N: rapid.SampledFrom(noisyLimits).Draw(t, "nNoisy")}
+			}
 			return c03Op{K: "set", N: rapid.OneOf(rapid.IntRange(-3, 80), rapid.IntRange(1, 6)).Draw(t, "n")}
 		case k < 18:
 			p := genPart(rapid.SampledFrom(addNames)).Draw(t, "part")
